@@ -5,7 +5,7 @@ The real run()/_regular/_check_*/_on_ready/_on_pong/WebSocket.close run with tim
 non-decreasing REAL; the clock advances only inside the selector wait, by a symbolic 0 <= dt <= poll
 (= poll iff nothing arrived).  poll p, ping_timeout t and close_timeout c are symbolic reals; ping_rate r is
 taken from a concrete grid (ceil(time/r)*r is non-linear in a symbolic r).  Per loop iteration a solver variable
-picks what the server does {nothing, Pong, Text, Close}; the application may close() at a solver-chosen event.
+picks what the server does {nothing, Pong, Text, Close, one event-less byte of an unfinished fragment}; the application may close() at a solver-chosen event.
 Floats are idealised as reals; handler time is zero.
 """
 import z3
@@ -66,6 +66,7 @@ def run_timers(c, P):
     w.default_script = sc
 
     hs = {'done': False}
+    dripping = [False]
 
     def advance(w_, socks, ready, timeout, scale):
         import select as _select
@@ -88,7 +89,8 @@ def run_timers(c, P):
             w_.log.append(('wait', 'eof', w_.clock))
             return [(socks[0].fd, _select.POLLIN)]
         slots[0] += 1
-        a = actions[c.choose(len(actions), 'srv')]
+        acts = actions if not dripping[0] else [x for x in actions if x in ('silent', 'drip')]
+        a = acts[c.choose(len(acts), 'srv')]
         chosen.append(a)
         if a == 'silent':
             w_.clock = w_.clock + tmo
@@ -98,7 +100,13 @@ def run_timers(c, P):
         if c.concrete is None:
             c.assume(z3.And(dt.e >= 0, dt.e <= R(tmo)))
         w_.clock = w_.clock + dt
-        sc.items.extend(FRAME[a])
+        if a == 'drip':
+            # event-less bytes: the header of a 256-byte non-final binary fragment, then one payload byte at a time; the socket is
+            # readable and the wait does not time out, but no message completes (from then on the server only drips or is silent)
+            sc.items.extend([0x61] if dripping[0] else [0x02, 0x7E, 0x01, 0x00, 0x61])
+            dripping[0] = True
+        else:
+            sc.items.extend(FRAME[a])
         w_.log.append(('wait', a, w_.clock))
         return [(socks[0].fd, _select.POLLIN)]
     w.advance = advance
